@@ -8,7 +8,7 @@ from common import Check, coq_eval, parse_defs, parse_nlist, cstr, clist, cbool,
 WORDS = ['FOO', 'BAR', 'KIND', 'A', 'B', 'ALPHA', 'BETA', 'X2', 'MODE', 'FLAG', 'FO', 'FOOD', 'Foo', 'foo', 'Z9']
 INT_TYPES = ['guint8', 'guint16', 'guint32', 'guint64', 'gint8', 'gint16', 'gint32', 'gint64', 'gint', 'guint',
              'glong', 'gulong', 'gsize', 'gssize', 'uint8_t', 'uint16_t', 'uint32_t', 'uint64_t', 'int32_t',
-             'gushort', 'guchar', 'gchar', 'gunichar', 'goffset', None, 'FooByte', 'FooWord', 'FooBig', 'FooPlain']
+             'gushort', 'guchar', 'gchar', 'gunichar', 'goffset', 'guintptr', 'gintptr', None, 'FooByte', 'FooWord', 'FooBig', 'FooPlain']
 ALIASES = {'FooByte': 'guint8', 'FooWord': 'guint16', 'FooBig': 'guint64', 'FooPlain': 'gint'}
 VALUES = [0, 1, -1, 255, 256, 300, 65535, 65536, 70000, 2 ** 31, 2 ** 32, 2 ** 32 + 5, -2 ** 31, 2 ** 63, 2 ** 64 - 1,
           2 ** 64, 2 ** 64 + 7, -2 ** 63, -300, 12345678901234567890]
@@ -156,7 +156,7 @@ def main(tier, seed):
         elif c['kind'] == 'int':
             # fixed-width unsigned constants wrap modulo their own width (judged without the model)
             fund = ALIASES.get(c['type'], c['obs'][2])
-            w = {'guint8': 8, 'guint16': 16, 'guint32': 32, 'guint64': 64}.get(fund)
+            w = {'guint8': 8, 'guint16': 16, 'guint32': 32, 'guint64': 64, 'guint': 32, 'gushort': 16, 'gunichar': 32}.get(fund)
             try:
                 v = int(c['obs'][1])
             except (TypeError, ValueError):
@@ -165,7 +165,16 @@ def main(tier, seed):
             if w is not None and not (0 <= v < 2 ** w and (v - c['value']) % (2 ** w) == 0):
                 ck.failing_input('unsigned constant not wrapped modulo its own width', dict(type=c['type'], value=c['value']),
                                  detail=dict(observed=c['obs'], expected=c['value'] % (2 ** w)))
-            elif w is None and fund not in ('guint', 'gulong', 'gsize', 'gushort', 'guchar', 'gunichar') and v != c['value']:
+            elif w is None and fund in ('gulong', 'gsize', 'guintptr'):
+                # the width of these depends on the platform, which the scanner does not know: known finding C13-K1 when the value
+                # emitted is the one written and it lies outside every possible width (negative)
+                if v < 0:
+                    ck.failing_input('constant of an unsigned type emitted with a negative value', dict(type=c['type'], value=c['value']),
+                                     detail=c['obs'], fid='C13-K1-platform-width-unsigned-not-wrapped' if v == c['value'] else None)
+                elif v != c['value'] and (v - c['value']) % (2 ** 32) != 0:
+                    ck.failing_input('unsigned constant changed by something other than wrapping', dict(type=c['type'], value=c['value']),
+                                     detail=c['obs'])
+            elif w is None and v != c['value']:
                 ck.failing_input('signed or untyped integer constant not emitted as written', dict(type=c['type'], value=c['value']),
                                  detail=c['obs'])
 
